@@ -2,6 +2,11 @@ package props
 
 import (
 	"bytes"
+	"crypto/cipher"
+	"fmt"
+	"math/big"
+
+	hpke "github.com/cisco/go-hpke"
 
 	"verifharness/internal/core"
 )
@@ -184,5 +189,77 @@ func rebuildBatchResponse(r *core.Rand) [][]byte {
 		many[i] = absent
 	}
 	out = append(out, mk(2, many...))
+	return out
+}
+
+// t3ResponseSealer derives, from the issuer's name-key seed and an encoded request, the response secret the
+// issuer holds for that request, and encrypts arbitrary payloads the way the issuer encrypts its blind signature.
+type t3ResponseSealer struct {
+	suite  hpke.CipherSuite
+	enc    []byte
+	secret []byte
+}
+
+func newT3ResponseSealer(seed, request []byte) (*t3ResponseSealer, error) {
+	p, ok := t3ParseRequest(request)
+	if !ok || len(p.Ciphertext) < 32 {
+		return nil, fmt.Errorf("request does not parse")
+	}
+	suite, err := hpke.AssembleCipherSuite(hpke.DHKEM_X25519, hpke.KDF_HKDF_SHA256, hpke.AEAD_AESGCM128)
+	if err != nil {
+		return nil, err
+	}
+	sk, _, err := suite.KEM.DeriveKeyPair(seed)
+	if err != nil {
+		return nil, err
+	}
+	ctx, err := hpke.SetupBaseR(suite, sk, p.Ciphertext[:32], []byte("TokenRequest"))
+	if err != nil {
+		return nil, err
+	}
+	return &t3ResponseSealer{suite: suite, enc: clone(p.Ciphertext[:32]), secret: ctx.Export([]byte("TokenResponse"), suite.AEAD.KeySize())}, nil
+}
+
+func (t *t3ResponseSealer) aead(responseNonce []byte) (cipher.AEAD, []byte, error) {
+	salt := append(clone(t.enc), responseNonce...)
+	prk := t.suite.KDF.Extract(salt, t.secret)
+	key := t.suite.KDF.Expand(prk, []byte("key"), t.suite.AEAD.KeySize())
+	nonce := t.suite.KDF.Expand(prk, []byte("nonce"), t.suite.AEAD.NonceSize())
+	a, err := t.suite.AEAD.New(key)
+	return a, nonce, err
+}
+
+func (t *t3ResponseSealer) seal(responseNonce, payload []byte) []byte {
+	a, nonce, err := t.aead(responseNonce)
+	must(err)
+	return append(clone(responseNonce), a.Seal(nil, nonce, payload, nil)...)
+}
+
+func (t *t3ResponseSealer) open(resp []byte) ([]byte, error) {
+	if len(resp) < 16 {
+		return nil, fmt.Errorf("short")
+	}
+	a, nonce, err := t.aead(resp[:16])
+	if err != nil {
+		return nil, err
+	}
+	return a.Open(nil, nonce, resp[16:], nil)
+}
+
+// rebuildT3Response: correctly encrypted responses whose plaintext is hostile (what an issuer holding the name
+// key can send): every short length, modulus-sized garbage, values >= N, padded and over-long payloads.
+func rebuildT3Response(r *core.Rand, t *t3ResponseSealer, good, modulus []byte) [][]byte {
+	var out [][]byte
+	k := len(modulus)
+	plains := [][]byte{nil, {0}, {1}, r.Bytes(1), r.Bytes(2), r.Bytes(31), r.Bytes(k - 1), good[:k-1], good[1:], r.Bytes(k), make([]byte, k), ff(k), clone(modulus),
+		append([]byte{0}, good...), append(clone(good), 0), append(make([]byte, k), good...), r.Bytes(k + 1), r.Bytes(2 * k), r.Bytes(2*k + 1), r.Bytes(4096), r.Bytes(65536)}
+	nm1 := new(big.Int).Sub(new(big.Int).SetBytes(modulus), big.NewInt(1))
+	plains = append(plains, nm1.FillBytes(make([]byte, k)), new(big.Int).Add(nm1, big.NewInt(2)).FillBytes(make([]byte, k)), big.NewInt(1).FillBytes(make([]byte, k)))
+	for l := 3; l < 40; l += 5 {
+		plains = append(plains, r.Bytes(l))
+	}
+	for _, pt := range plains {
+		out = append(out, t.seal(r.Bytes(16), pt))
+	}
 	return out
 }
